@@ -203,6 +203,8 @@ def engine_ksched(pid, tier, seed, res, max_n=None):
         if r["build_error"]:
             dist["build_error"] += 1
             res.notes.append("generated case did not build: " + r["build_error"][:200])
+            if "did not return" in r["build_error"]:
+                res.hit("C09", "monitor", "a call of the DAG before its reconfiguration hangs / spins: " + r["build_error"][:200], dict(engine="ksched", case=case, sched_seed=r["sched_seed"], run_index=0, choices=[], kind="monitor"))
             continue
         for ri, run in enumerate(r["runs"]):
             base = dict(engine="ksched", case=case, sched_seed=r["sched_seed"], run_index=ri, choices=[x["choices"] for x in r["runs"][:ri + 1]], inline=[x.get("inline", []) for x in r["runs"][:ri + 1]])
